@@ -133,6 +133,7 @@ type actor struct {
 	disturbedAt     time.Duration
 	kvWindowOpen    bool
 	transferring    bool
+	failedSeen      int // a.kv.Failed at this actor's previous commit
 	tokensTaken     bool // another instance claimed this instance's tokens (hand-over) and it has not published tokens since
 	readySeen       bool
 	inheritedTokens map[uint32]bool
@@ -255,6 +256,7 @@ func (w *world) build(a *actor) {
 	a.readySeen = false
 	a.activeChecked = false
 	a.everActive, a.everTokens, a.handover = false, false, false
+	a.failedSeen = 0
 	switch a.kind {
 	case kindClassic:
 		var cfg ring.LifecyclerConfig
@@ -431,7 +433,10 @@ func (w *world) checkCommits() {
 		if iok && ie.State != oe.State {
 			switch a.kind {
 			case kindClassic:
-				if !classicEdges[[2]ring.InstanceState{ie.State, oe.State}] && !(w.faultsOn && classicReachable(ie.State, oe.State)) {
+				// a state whose write the store rejected (injected fault, or retries exhausted under contention) is
+				// skipped in what gets published; the lifecycler's own state still followed the edges
+				rejected := w.faultsOn || a.kv.Failed > a.failedSeen
+				if !classicEdges[[2]ring.InstanceState{ie.State, oe.State}] && !(rejected && classicReachable(ie.State, oe.State)) {
 					s.Fail("illegal-state-edge", "", "commit #%d: %s published %v -> %v", c.Seq, a.id, ie.State, oe.State)
 				}
 			case kindBasic:
@@ -440,6 +445,7 @@ func (w *world) checkCommits() {
 				}
 			}
 		}
+		a.failedSeen = a.kv.Failed
 		// 3. heartbeat timestamp never goes backwards
 		if iok && oe.Timestamp < ie.Timestamp {
 			s.Fail("timestamp-backwards", "", "commit #%d: %s heartbeat timestamp %d -> %d", c.Seq, a.id, ie.Timestamp, oe.Timestamp)
